@@ -138,7 +138,12 @@ func runAcceptSeq(seq string) (obs string, problems []string) {
 			case <-time.After(3 * time.Second):
 				problems = append(problems, "Serve did not return after a permanent error")
 			}
-		case 'S':
+		case 'S', 'Z':
+			if tok == 'Z' {
+				lis.mu.Lock()
+				lis.tempAfterClose = true // a "stoppable listener": Close makes Accept fail with a temporary (timeout) error
+				lis.mu.Unlock()
+			}
 			for _, c := range conns {
 				c.peerClose()
 			}
@@ -152,6 +157,15 @@ func runAcceptSeq(seq string) (obs string, problems []string) {
 				result = resultName(err)
 			case <-time.After(3 * time.Second):
 				problems = append(problems, "Serve did not return after Shutdown")
+				result = "stuck"
+				// let it go: the listener's error becomes permanent
+				lis.mu.Lock()
+				lis.tempAfterClose = false
+				lis.mu.Unlock()
+				select {
+				case <-served:
+				case <-time.After(3 * time.Second):
+				}
 			}
 		}
 	}
@@ -211,17 +225,17 @@ func suiteAccept(args []string) {
 	fs.Parse(args)
 	cw := newCaseWriter(*dir)
 	rep := &Report{Suite: "accept", Seed: *seed, Distribution: map[string]int{}}
-	rep.Rule = "every sequence over {T,C,P,S} up to the length bound (nothing follows P or S), each run against the real Serve; all distinct; non-trivial = contains at least one T or C"
+	rep.Rule = "every sequence over {T temporary error, C connection, P permanent error, S Shutdown, Z Shutdown on a listener whose Accept then fails with a TEMPORARY error} up to the length bound (nothing follows P, S or Z), each run against the real Serve; all distinct; non-trivial = contains at least one T or C"
 	var seqs []string
 	var gen func(prefix string)
 	gen = func(prefix string) {
 		if prefix != "" {
 			seqs = append(seqs, prefix)
 		}
-		if len(prefix) == *maxLen || strings.HasSuffix(prefix, "P") || strings.HasSuffix(prefix, "S") {
+		if len(prefix) == *maxLen || strings.HasSuffix(prefix, "P") || strings.HasSuffix(prefix, "S") || strings.HasSuffix(prefix, "Z") {
 			return
 		}
-		for _, t := range "TCPS" {
+		for _, t := range "TCPSZ" {
 			gen(prefix + string(t))
 		}
 	}
